@@ -625,6 +625,21 @@ fn rule<const K: usize>() -> RewriteRule {
     }
 }
 
+/// Executor fn pointer of a slot (for driving the shard executors directly).
+pub fn slot_executor(k: usize) -> warp_core::ExecuteFn {
+    match k {
+        0 => executor::<0>,
+        1 => executor::<1>,
+        2 => executor::<2>,
+        3 => executor::<3>,
+        4 => executor::<4>,
+        5 => executor::<5>,
+        6 => executor::<6>,
+        7 => executor::<7>,
+        _ => executor::<8>,
+    }
+}
+
 /// Register all rule slots; `order` permutes registration order (compact rule
 /// ids are assigned in registration order, which must not matter).
 pub fn register_slots(engine: &mut Engine, order: &[usize]) -> Result<(), String> {
